@@ -17,6 +17,10 @@ use muxide::codec::opus::{
 };
 use muxide::codec::vp9::{extract_vp9_config, is_valid_vp9_frame, is_vp9_keyframe, Vp9Config, Vp9Error};
 use muxide::fragmented::{FragmentConfig, FragmentedError, FragmentedMuxer};
+use muxide::validation::{
+    validate_audio_config, validate_audio_frame, validate_muxing_config, validate_video_config, validate_video_frame,
+    AudioValidationConfig, ValidationResult, VideoValidationConfig,
+};
 
 // ---------- helpers ----------
 fn hexval(c: u8) -> u8 {
@@ -221,6 +225,54 @@ fn vp9cfg_str(c: &Vp9Config) -> String {
     )
 }
 
+// validation texts -> the codes of Model/Validation.v (every text the module can produce is listed;
+// an unlisted text prints code 99 and shows up as a correspondence mismatch)
+fn vmsg_code(t: &str) -> u32 {
+    const M: [(&str, u32); 11] = [
+        ("✓ Video codec ", 1),
+        ("✓ Video dimensions ", 2),
+        ("✓ Video framerate ", 3),
+        ("✓ Audio codec ", 4),
+        ("✓ No audio configured", 5),
+        ("✓ Audio sample rate ", 6),
+        ("✓ Audio channels ", 7),
+        ("⚠ Frame not marked as keyframe but ", 8),
+        ("✓ Frame keyframe flag matches ", 9),
+        ("✓ AAC frame has valid ADTS header", 10),
+        ("✓ Opus packet has valid structure", 11),
+    ];
+    M.iter().find(|(p, _)| t.starts_with(p)).map(|x| x.1).unwrap_or(99)
+}
+fn verr_code(t: &str) -> u32 {
+    const E: [(&str, &str, u32); 19] = [
+        ("Video width and height must be positive", "", 1),
+        ("Video dimensions ", "exceed maximum supported size", 2),
+        ("Video dimensions ", "below minimum supported size", 3),
+        ("Video framerate must be positive", "", 4),
+        ("Video framerate ", "exceeds maximum supported rate", 5),
+        ("Audio sample rate must be positive", "", 6),
+        ("Audio sample rate ", "exceeds maximum supported rate", 7),
+        ("Audio channels must be positive", "", 8),
+        ("Audio channels ", "exceeds maximum supported count", 9),
+        ("Video frame data cannot be empty", "", 10),
+        ("Frame marked as keyframe but ", "", 11),
+        ("Audio frame data cannot be empty", "", 12),
+        ("AAC frame too short for ADTS header", "", 13),
+        ("Invalid AAC ADTS syncword", "", 14),
+        ("Invalid Opus packet structure", "", 15),
+        ("Cannot validate audio frame for None codec", "", 16),
+        ("Video codec specified but missing", "", 17),
+        ("Audio codec specified but missing", "", 18),
+        ("At least one of video or audio must be configured", "", 19),
+    ];
+    E.iter().find(|(p, q, _)| t.starts_with(p) && t.contains(q)).map(|x| x.2).unwrap_or(99)
+}
+fn vres(r: &ValidationResult) -> String {
+    let m: Vec<String> = r.messages.iter().map(|t| vmsg_code(t).to_string()).collect();
+    let e: Vec<String> = r.errors.iter().map(|t| verr_code(t).to_string()).collect();
+    format!("{} m{} e{}", s01(r.is_valid), m.join(","), e.join(","))
+}
+
 fn run_fn(name: &str, args: &[&str]) -> String {
     let d = || bytes_of_hex(args[0]);
     match name {
@@ -291,6 +343,29 @@ fn run_fn(name: &str, args: &[&str]) -> String {
             Err(e) => format!("err other {}", e),
         },
         "is_valid_vp9_frame" => s01(is_valid_vp9_frame(&d())).into(),
+        "validate_video_config" => vres(&validate_video_config(vcodec(args[0]), num(args[1]) as u32, num(args[2]) as u32, f64_of(args[3]))),
+        "validate_audio_config" => vres(&validate_audio_config(acodec(args[0]), num(args[1]) as u32, num(args[2]) as u8)),
+        "validate_video_frame" => vres(&validate_video_frame(vcodec(args[0]), &bytes_of_hex(args[1]), args[2] == "1")),
+        "validate_audio_frame" => vres(&validate_audio_frame(acodec(args[0]), &bytes_of_hex(args[1]))),
+        "validate_muxing_config" => {
+            fn o<T>(x: &str, g: impl Fn(&str) -> T) -> Option<T> {
+                if x == "~" { None } else { Some(g(x)) }
+            }
+            let v = VideoValidationConfig {
+                codec: o(args[0], vcodec),
+                width: o(args[1], |x| num(x) as u32),
+                height: o(args[2], |x| num(x) as u32),
+                framerate: o(args[3], f64_of),
+                sample_frame: o(args[4], |x| (bytes_of_hex(x), args[5] == "1")),
+            };
+            let a = AudioValidationConfig {
+                codec: o(args[6], acodec),
+                sample_rate: o(args[7], |x| num(x) as u32),
+                channels: o(args[8], |x| num(x) as u8),
+                sample_frame: o(args[9], bytes_of_hex),
+            };
+            vres(&validate_muxing_config(v, a))
+        }
         _ => "unknown-fn".into(),
     }
 }
